@@ -2,7 +2,7 @@
     with the repaired model satisfies the executable spec. *)
 From Coq Require Import List String Ascii Bool NArith.
 From DH Require Import Lib.CheckLib Model.Acl Model.Jwt Model.Gate Model.SecStore
-     Proofs.AclProofs Proofs.JwtProofs Proofs.GateProofs Proofs.SecStoreProofs Check.C16Check.
+     Proofs.AclProofs Proofs.JwtProofs Proofs.GateProofs Proofs.SecStoreProofs Proofs.GateSeqProofs Check.C16Check.
 Import ListNotations.
 Open Scope string_scope.
 
@@ -73,9 +73,22 @@ Proof. intros H. unfold gate_spec_b, world_of. cbn. destruct (extract_token auth
 Lemma strlist_eqb_eq a b : strlist_eqb a b = true <-> a = b.
 Proof. apply list_eqb_eq. intros; apply String.eqb_eq. Qed.
 
+Lemma answer_agrees_req v w auth q :
+  answer_agrees (decide v w auth (q_method q) (q_path q)) q = req_agrees v w auth q.
+Proof. unfold answer_agrees, req_agrees. now destruct (decide v w auth (q_method q) (q_path q)). Qed.
+
+Lemma seq_fixed_spec c : seq_agrees fixed c = true -> seq_spec_ok c = true.
+Proof.
+  unfold seq_agrees, seq_spec_ok. rewrite gate_run_stateless. unfold stateless_answers.
+  induction (c_seq c) as [|x l IH]; [reflexivity|]. cbn [map forall2b forallb].
+  destruct (answer_agrees _ (snd x)) eqn:E; [|discriminate]. intros H.
+  unfold rq_of in E. cbn [rq_time rq_auth rq_method rq_path] in E. rewrite answer_agrees_req in E.
+  apply req_step in E; [|exact routes_compiled_ok]. rewrite E. cbn [andb]. now apply IH.
+Qed.
+
 Theorem agree_fixed_spec c : agree cfixed c = true -> spec_ok c = true.
 Proof.
-  unfold agree, spec_ok. destruct (N.eqb (c_kind c) 0).
+  unfold agree, spec_ok. destruct (N.eqb (c_kind c) 3); [apply seq_fixed_spec|]. destruct (N.eqb (c_kind c) 0).
   - intros H. apply andb_true_iff in H. destruct H as [H _]. cbn [cv_gate cfixed] in H.
     eapply forallb_impl; [|exact H]. intros q. apply req_step. exact routes_compiled_ok.
   - destruct (N.eqb (c_kind c) 2).
